@@ -28,7 +28,7 @@ ASSUMPTIONS = ["codec libraries (lzma, bz2, zlib, ...) are correct", "supported 
 FT = 132223104000000000
 
 
-GEN_DEPS = ["read_uint64", "read_uint32", "read_real_uint64", "read_boolean", "read_crcs", "read_byte", "PackInfo.__init__", "PackInfo._read", "PackInfo.retrieve", "Coder", "Bond.__init__", "Folder.__init__", "Folder._read", "Folder.retrieve", "UnpackInfo.__init__", "UnpackInfo._retrieve_coders_info", "UnpackInfo._read", "UnpackInfo.retrieve", "Folder._find_out_bin_pair", "Folder.get_unpack_size", "SubstreamsInfo.__init__", "SubstreamsInfo._inherit_folder_digests", "SubstreamsInfo._read", "SubstreamsInfo.retrieve", "SubstreamsInfo.default"]
+GEN_DEPS = ["read_uint64", "read_uint32", "read_real_uint64", "read_boolean", "read_crcs", "read_byte", "PackInfo.__init__", "PackInfo._read", "PackInfo.retrieve", "Coder", "Bond.__init__", "Folder.__init__", "Folder._read", "Folder.retrieve", "UnpackInfo.__init__", "UnpackInfo._retrieve_coders_info", "UnpackInfo._read", "UnpackInfo.retrieve", "Folder._find_out_bin_pair", "Folder.get_unpack_size", "SubstreamsInfo.__init__", "SubstreamsInfo._inherit_folder_digests", "SubstreamsInfo._read", "SubstreamsInfo.retrieve", "SubstreamsInfo.default", "StreamsInfo.__init__", "StreamsInfo.read", "StreamsInfo.retrieve", "read_utf16", "FileEntry", "FilesInfo.__init__", "FilesInfo._read_name", "FilesInfo._read_attributes", "FilesInfo._read_times[creationtime]", "FilesInfo._read_times[lastaccesstime]", "FilesInfo._read_times[lastwritetime]", "FilesInfo._read", "FilesInfo.retrieve"]
 
 def gen_members(rng, n=None):
     n = rng.choice([1, 2, 3, 3, 4, 5, 6]) if n is None else n
@@ -49,6 +49,13 @@ def gen_members(rng, n=None):
         if rng.random() < 0.5:
             mode = {"file": 0o100644, "empty": 0o100600, "dir": 0o40755}[kind]
             attr |= 0x8000 | (mode << 16)
+        # entries without data whose attribute word disagrees with (or says nothing about) what the EmptyFile bit says:
+        # a directory without attributes / without FILE_ATTRIBUTE_DIRECTORY (other archivers write such entries), an empty
+        # FILE whose attribute word carries the directory bit -- with and without unix mode bits of either kind
+        if kind == "dir" and rng.random() < 0.3:
+            attr = rng.choice([None, 0, 0x20, 0x8000 | (0o40755 << 16), 0x20 | 0x8000 | (0o100644 << 16), 0x01])
+        elif kind == "empty" and rng.random() < 0.3:
+            attr = rng.choice([0x10, 0x30, 0x10 | 0x8000 | (0o100600 << 16), 0x10 | 0x8000 | (0o40700 << 16), 0x11])
         out.append({"name": name, "kind": kind, "data": data, "mtime": FT + rng.randrange(10 ** 9) * 10, "attr": attr,
                     "ctime": None, "atime": None})
     return out
@@ -252,9 +259,10 @@ def model_vs_impl(ctx, rep, data, members):
         z.close()
 
 
-# layout features py7zr is known to misread (zero_folder, partial_crc, multifolder_empty_between and no_substreams were
-# repaired in /repo: a misreading of such a layout is an ordinary violation)
-PRIORITY = ["dir_without_dir_attribute", "emptyfile_with_dir_attribute"]
+# layout features py7zr is known to misread: none is left (zero_folder, partial_crc, multifolder_empty_between,
+# no_substreams and -- ArchiveFile.is_directory reads the EmptyFile bit -- dir_without_dir_attribute /
+# emptyfile_with_dir_attribute were repaired in /repo: a misreading of such a layout is an ordinary violation)
+PRIORITY = []
 FEATURES = [None, None, None, "packpos", "no_substreams", "partial_crc", "zero_folder", "partial_vectors"]
 
 
@@ -358,7 +366,9 @@ def run(ctx):
                        "independent reference writer: folder partitions, coder chains, CRC placement, packed CRCs, kDummy, EmptyFile, "
                        "NumUnpackStream omitted, raw/LZMA header, and one feature class per case in rotation (packpos>0, no "
                        "SubStreamsInfo, partially defined CRCs, zero-sub-stream folder, partially defined vectors); non-trivial = some "
-                       "member has data; distinct by (case, layout); plus tests/data fixtures cross-checked spec reader vs py7zr")
+                       "member has data; about a third of the directories come without attributes / without the directory attribute "
+                       "and of the empty files with it; distinct by (case, layout); plus tests/data fixtures cross-checked spec "
+                       "reader vs py7zr")
     n = 160 if tier == "quick" else 4000
     for i in range(n):
         one_case(ctx, rep, rng, i)
